@@ -216,6 +216,36 @@ def _read_field(v, schema, tname, names):
     return read(v, schema, tname, names)
 
 
+def object_ids(msg, schema, tname, path='', out=None):
+    """(path, id) of every composite and array object reachable from a live message through public attributes.
+    A message is a tree: no object may appear under two paths, nor in two messages."""
+    out = out if out is not None else []
+    out.append((path or '.', id(msg)))
+    r = schema.resolve(tname)
+    if r.kind == 'union':
+        arm = [a for a in r.arms if a[0] == msg.discriminator][0]
+        if is_composite(schema, arm[1]):
+            object_ids(getattr(msg, arm[2]), schema, arm[1], path + '.' + arm[2], out)
+        return out
+    sz = sizer_names(r)
+    for m in r.members:
+        if m.type == 'byte' or m.name in sz:
+            continue
+        comp = is_composite(schema, m.type)
+        if m.kind in (PLAIN, OPTIONAL) and not comp:
+            continue
+        v = getattr(msg, m.name)
+        if m.kind in (PLAIN, OPTIONAL):
+            if comp and v is not None:
+                object_ids(v, schema, m.type, path + '.' + m.name, out)
+        else:
+            out.append((path + '.' + m.name + '[]', id(v)))
+            if comp:
+                for i, e in enumerate(v):
+                    object_ids(e, schema, m.type, '%s.%s[%d]' % (path, m.name, i), out)
+    return out
+
+
 def mutate_in_place(msg, schema, tname, rng, grow=False):
     """Change leaf values of a live message in place (containers and nested objects are kept, so a
     message that aliases any of them changes too). With grow=True every dynamic/limited/greedy array that has
